@@ -33,7 +33,8 @@ impl TransferInfo {
                 crate::sender::objectdesc::TargetAcquisition::WithinDuration(duration) => {
                     let nb_packets = object
                         .transfer_length
-                        .div_ceil(oti.encoding_symbol_length as u64);
+                        .div_ceil(oti.encoding_symbol_length as u64)
+                        .max(1); // an empty object is transferred in a single packet
                     // TODO should we take into account the FEC encoding symbol length ?
                     Some(duration.div_f64(nb_packets as f64))
                 }
@@ -49,7 +50,8 @@ impl TransferInfo {
                     }
                     let nb_packets = object
                         .transfer_length
-                        .div_ceil(oti.encoding_symbol_length as u64);
+                        .div_ceil(oti.encoding_symbol_length as u64)
+                        .max(1); // an empty object is transferred in a single packet
                     Some(duration.div_f64(nb_packets as f64))
                 }
             }
